@@ -71,6 +71,8 @@ class _AbstractOrderedSet(AbstractSet[T], Sequence[T]):  # noqa: PLW1641
         """
         if isinstance(index, slice):
             raise NotImplementedError("Slicing currently not supported.")
+        if index < 0:
+            index += len(self._items)
         for i, key in enumerate(self._items.keys()):
             if i == index:
                 return key
@@ -191,7 +193,9 @@ class _AbstractOrderedSet(AbstractSet[T], Sequence[T]):  # noqa: PLW1641
             if len(self) > len(other):  # type: ignore[arg-type]
                 return False
         except TypeError:
-            pass
+            # Unsized iterables may be one-shot iterators, which cannot be
+            # queried for membership more than once.
+            other = set(other)
         return all(item in other for item in self)
 
     def issuperset(self, other: Iterable[T]) -> bool:
@@ -229,8 +233,10 @@ class _AbstractOrderedSet(AbstractSet[T], Sequence[T]):  # noqa: PLW1641
             The symmetric difference.
         """
         cls = self.__class__
+        # Materialize first, `other` may be a one-shot iterator.
+        other = cls(other)
         diff1 = cls(self).difference(other)
-        diff2 = cls(other).difference(self)
+        diff2 = other.difference(self)
         return diff1.union(diff2)
 
 
@@ -296,6 +302,8 @@ class OrderedSet(_AbstractOrderedSet[T], MutableSet[T]):
         Args:
             other: The other set.
         """
+        # Materialize first, `other` may be a one-shot iterator.
+        other = tuple(other)
         items_to_add = [item for item in other if item not in self]
         items_to_remove = cast("set[T]", set(other))
         self._items = {item: None for item in self._items if item not in items_to_remove}
